@@ -59,7 +59,7 @@ Ltac wf_tac :=
   repeat (progress (cbn [wfs wfs_sl wfs_kl wfs_vl wfs_cl sl kl al cl arr mapS var choice
                          NativeScripts WsNativeScripts PlutusList WsPlutusList RedeemersMap RedeemersArr Redeemers
                          GeneralTransactionMetadata AuxiliaryData DataOption ScriptRef
-                         TransactionOutputMap TransactionOutput TransactionOutputs TransactionBody
+                         TransactionOutputMap TransactionOutput TransactionOutputs AddressS RewardAddressS TransactionBody
                          TransactionWitnessSet Transaction Block not_major7 first_major may_start7 has_disc];
                     rewrite ?wf_NativeScript, ?wf_Metadatum, ?wf_PlutusData,
                             ?fm_NativeScript, ?fm_Metadatum, ?fm_PlutusData,
